@@ -106,6 +106,14 @@ func (g *gctx) dynamic(k kind, noArg bool) *Node {
 		if nEl < 0 {
 			nEl = 2
 		}
+		if g.lam == 1 && g.chance(8, "unboundElem") {
+			// {1} in an @map / @filter sub-expression: not bound to anything
+			// there; whatever it reads, it reads the same with and without
+			// the optimiser (not what an earlier @reduce / @for left behind
+			// in a recycled sub-context)
+			g.label("unbound-{1}-in-sub-expression")
+			return elem(1)
+		}
 		if g.lam < 0 || g.chance(75, "elem") {
 			return elem(g.n(0, nEl-1, "elemIdx"))
 		}
